@@ -405,13 +405,13 @@ def run_dispatch(case):
             if np.asarray(got).tobytes() != np.asarray(want).tobytes():
                 viol.append({'sig': 'dispatch/rule/wrong-function/%s/%s' % (rule, label.split(':')[0]),
                              'msg': '%s selected by %r (%s, labyrinth factor %r) gives %r, the rule itself %r' % (rule, sel, how, lab, got, want)})
-    # labyrinth factor outside [1, 2] is documented to be clipped
-    for lab, want in ((0.5, 1), (3, 2), (1.25, 1.25)):
+    # an admissible labyrinth factor is stored as given (what happens outside [1, 2] is not part of the statement)
+    for lab in (1, 1.25, 2):
         prm = HP('lab', labyrinthFactor=1)
         prm.setLabyrinthFactor(lab)
         n += 1
-        if prm.labyrinthFactor != want:
-            viol.append({'sig': 'dispatch/labyrinth-factor-clip', 'msg': 'setLabyrinthFactor(%r) stores %r, documented %r' % (lab, prm.labyrinthFactor, want)})
+        if prm.labyrinthFactor != lab:
+            viol.append({'sig': 'dispatch/labyrinth-factor', 'msg': 'setLabyrinthFactor(%r) stores %r' % (lab, prm.labyrinthFactor)})
     # post-processing by name and by constant
     for mode, idn in POST_IDS.items():
         a, b = HP(rule, postProcessFunction=mode, postProcessArgs=['X']), HP(rule, postProcessFunction=getattr(HP, idn), postProcessArgs=['X'])
